@@ -15,6 +15,9 @@ void *my_malloc(size_t sz) { int k = (int)rt_gget(63); rt_assert(k < NPOOL && sz
 void my_free(void *p) {
   int i = p == (void *)&PL0 ? 0 : p == (void *)&PL1 ? 1 : p == (void *)&PL2 ? 2 : p == (void *)&PL3 ? 3 : p == (void *)&PL4 ? 4 : -1;
   rt_assert(i >= 0, "free() of a pointer that malloc() did not return");
+  /* a dummy node may still be referenced by concurrent dequeuers/enqueuers (stale head / tail): it is reclaimed only by its call_rcu
+   * callback (ghost 60 = 1 while the epilogue runs them, i.e. after every read-side section of the run) or by destroy on a quiescent queue (2) */
+  rt_assert(rt_gget(60) != 0, "dummy node freed directly, without waiting for a grace period");
   rt_assert(!((rt_gget(61) >> i) & 1), "double free of a dummy node");
   rt_gset(61, rt_gget(61) | (1u << i));
   struct cds_lfq_node_rcu_dummy *d = PLP(i);
@@ -40,7 +43,7 @@ static inline int deq(int j) { uint32_t c = h_rem_call(); struct cds_lfq_node_rc
 void prologue(void) { cds_lfq_init_rcu(&Q, my_call_rcu); }
 /* sequential wrappers kept out of line: the epilogue's counted loops and the library's retry loops get different unwinding bounds */
 static __attribute__((noinline)) int deq_seq(int j) { return deq(j); }
-static __attribute__((noinline)) int destroy_seq(void) { return cds_lfq_destroy_rcu(&Q); }
+static __attribute__((noinline)) int destroy_seq(void) { rt_gset(60, 2); int r = cds_lfq_destroy_rcu(&Q); rt_gset(60, 0); return r; }
 #if SCEN == 1
 void t1(void) { enq(0); enq(2); }
 void t2(void) { enq(1); int v = deq(0); rt_cover(v == H_NONE, "a dequeue saw an empty queue"); }
@@ -63,10 +66,12 @@ void epilogue(void) {
   h_check_basic(); h_check_conservation(); h_check_fifo(); h_check_empty_answers();
   /* grace period over: run the deferred callbacks (frees the retired dummies exactly once) */
   int np = (int)rt_gget(62);
+  rt_gset(60, 1);
   for (int k = 0; k < 6; k++) if (k < np) PFN[k](PEND[k]);
+  rt_gset(60, 0);
   rt_cover(np >= 1, "a dummy node was retired through call_rcu");
 #if SCEN == 2
-  rt_cover(rt_gget(59) == 1 + 3, "thread 1 dequeued the other thread's node");
+  rt_cover(rt_gget(59) == 1 + 3, "thread 1 dequeued the node of the other thread");
 #endif
 #if SCEN == 3
   rt_assert(rt_gget(59) == 4, "single thread: enqueue a, b; dequeue returns a, b, then NULL");
